@@ -127,4 +127,71 @@ CHECKS = {
                  'soundness only for suggestions.',
         'note': 'Relies on the LR correct-prefix property (bisection over prefixes) and the Earley recogniser.',
     },
+    'C07': {
+        'technique': 'bounded-exhaustive enumeration + property-based testing against reference lexical models: constant '
+                     'values (all strings <= 3/4 chars over a 10-character hostile alphabet, injection payloads, Unicode, '
+                     'numbers, booleans, NULL, dates) x 7 positions x 15 outputs (to_string, get_string / '
+                     'get_exec_params for 7 dialect names); oracle = token sequence of the output by the target dialect\'s '
+                     'own lexical rules equals that of a benign sentinel except for one literal decoding to the value; '
+                     'real sqlite3 engine cross-check for the sqlite target',
+        'level': 'Exhaustive over the hostile alphabet up to length 3 (quick) / 4 (thorough), sampled beyond.',
+        'note': 'Trusts vf/oracles/targetlex.py (hand-written default-mode lexical models of mysql, postgresql, sqlite, '
+                'mssql, oracle, snowflake; the sqlite one is checked against the engine on every run).',
+    },
+    'C09': {
+        'technique': 'bounded-exhaustive enumeration + property-based invariant checking: every join shape over '
+                     '{table, model, TS model, sub-select, native query, injected data} up to length 3/4 x variants x 12 '
+                     'statement wraps on fixed catalogs, random model/catalog combinations beyond; oracle = dataflow '
+                     'invariants over every Result / Parameter(Result) / held step found by reflection, exception class',
+        'level': 'Exhaustive over join shapes up to length 3 (4 in thorough) on two catalogs; sampled over catalogs, '
+                 'WHERE atoms and options. Exact invariant oracle with its own unit self-test.',
+        'note': 'Single-sink clause is waived (counted) for statements with a WITH clause (unused / eagerly planned CTEs).',
+    },
+    'C10': {
+        'technique': 'property-based testing against a reference model + metamorphic relation: queries with tables and '
+                     'models in every position x catalogs x qualifier spellings; oracle = independent name resolver '
+                     'over a reflection walk of the original tree vs places observed in fetch / apply / DML steps; '
+                     're-spelling qualifiers / re-encoding the catalog must not change the normalised plan',
+        'level': 'Sampled; exact set-equality oracle plus stray-qualifier and stray-table clauses.',
+        'note': 'Trusts vf/oracles/resolve.py (19-case self-test run in prepare). DML target routing is identity of the '
+                'identifier only (the executor routes).',
+    },
+    'C12': {
+        'technique': 'property-based metamorphic testing over call histories: statement templates with holes in every '
+                     'expression position x value lists x drawn prepare / info / execute / execute-wrong-count / '
+                     're-prepare sequences on one planner; oracle = steps of execute(values) structurally identical to '
+                     'plan_query(parse(text with the i-th hole replaced by literal i)), exact parameter count, '
+                     'PlanningException on a wrong count, no placeholder left',
+        'level': 'Sampled templates and histories (2..8 calls quick, 2..20 thorough); exact oracle.',
+        'note': 'The expected side never consults the library\'s walker; sub-select names t_<id> are normalised.',
+    },
+    'C14': {
+        'technique': 'property-based testing against a generating model + bounded enumeration: table-model join queries '
+                     'rendered from a model of labelled atoms (which conjunct belongs where) x WHERE skeletons x USING '
+                     'options x catalogs; oracle = five structural clauses computed from the generating model (apply '
+                     'step per model and its input, row_dict, neutralised / untouched atoms, pushed conjuncts, params, '
+                     'columns_map)',
+        'level': 'Exhaustive over 10 WHERE skeletons x pairs of 10 atom kinds x 3 FROM shapes; sampled beyond.',
+        'note': 'A parse-sanity clause checks that the parsed WHERE / ON / USING equal the model before judging.',
+    },
+    'C15': {
+        'technique': 'property-based testing against a reference definition + execution: TS-join queries (time '
+                     'condition x partition filters x window x group columns x join order x source) x table contents '
+                     'with ties / NULL times / short partitions; emitted fetch queries executed on sqlite3 by an own '
+                     'executor and compared with the reference row set (validity predicate under ties); rejected '
+                     'shapes must raise PlanningException',
+        'level': 'Bounded enumeration of operator x filter x window x groups x order x source on fixed tables + sampled.',
+        'note': 'Trusts vf/oracles/tsexec.py ($var substitution, MultipleSteps / MapReduce shapes as the repo\'s tests '
+                'show them) and sqlite3.',
+    },
+    'C20': {
+        'technique': 'differential isolation testing: every call of a corpus (parse / plan / render, incl. failing ones) '
+                     'is compared with the same call run first in a pristine forked process, under (a) free-running and '
+                     'deterministically forced thread interleavings in three sharing modes, (b) drawn call histories '
+                     're-using catalog and renderer objects, (c) sub-processes with PYTHONHASHSEED 0,1,2,3,random',
+        'level': 'Sampled schedules and histories; (c) covers the whole call corpus. Schedules are explored, not '
+                 'enumerated: a race needing one specific switch point may be missed (forced line-level switching helps).',
+        'note': 'The harness does not own the GIL schedule in free-running mode; forced mode switches at line boundaries '
+                'inside mindsdb_sql/ and sly/ only.',
+    },
 }
